@@ -83,6 +83,12 @@ func runW6(t *testing.T, job *Job, seed uint64, rp *Replay) RunOut {
 		json.Unmarshal(rp.Ops, &rounds)
 	} else {
 		nRounds := r.Pick(6, 3, 1) + 1
+		// node numbers: unique per seed in most runs (runs executed by one worker process then share nothing); small
+		// numbers that straddle a digit boundary (event8..event11, event97..event102) in the others
+		evBase := seed * 64
+		if r.Chance(0.3) {
+			evBase = []uint64{0, 5, 8, 95, 98, 995}[r.Intn(6)]
+		}
 		for ri := 0; ri < nRounds; ri++ {
 			var hs []w6Handler
 			nPhys := r.Range(1, 5)
@@ -115,7 +121,7 @@ func runW6(t *testing.T, job *Job, seed uint64, rp *Replay) RunOut {
 					uq = fmt.Sprintf("SN%04d", r.Intn(3))
 				}
 				hs = append(hs, w6Handler{Uniq: uq, Name: fmt.Sprintf("Sim Device %d %s", r.Intn(nPhys), []string{"", "Mouse", "Consumer Control", "System Control", "Keyboard"}[r.Intn(5)]),
-					Phys: ph, Caps: caps, Event: fmt.Sprintf("event%d", seed*64+uint64(i)), Prod: r.Intn(3)})
+					Phys: ph, Caps: caps, Event: fmt.Sprintf("event%d", evBase+uint64(i)), Prod: r.Intn(3)})
 			}
 			rounds = append(rounds, hs)
 		}
